@@ -122,6 +122,18 @@ class Program(object):
             raise TranslationError("[{}] is not a constant or a label".format(statement.operand.operand_string), statement)
         self.symbol_table[statement.label] = resolved
 
+    def fix_defined_symbol(self, statement):
+        """
+        Once addresses are known, gives a symbol that an EQU defines by label
+        arithmetic its value.
+
+        :param statement: the statement that may define such a symbol
+        """
+        if statement.label and statement.instruction.is_pseudo_define:
+            value = self.symbol_table[statement.label]
+            if value.is_address_expression():
+                self.symbol_table[statement.label] = value.calculate_address_offset(self.statements)
+
     def translate_statements(self):
         """
         Translates all the parsed statements into their respective
@@ -166,6 +178,7 @@ class Program(object):
         for index, statement in enumerate(self.statements):
             try:
                 statement.fix_addresses(self.statements, index)
+                self.fix_defined_symbol(statement)
             except (ValueTypeError, ZeroDivisionError, OperandTypeError) as error:
                 raise TranslationError(str(error), statement)
 
@@ -173,8 +186,6 @@ class Program(object):
         for symbol, value in self.symbol_table.items():
             if value.is_address():
                 self.symbol_table[symbol] = self.statements[value.int].code_pkg.address
-            if value.is_address_expression():
-                self.symbol_table[symbol] = value.calculate_address_offset(self.statements)
 
         # Find the origin and name of the project
         emitted = False
